@@ -405,6 +405,35 @@ fn tls_eq_inner<T: std::fmt::Display + ToLeanString>(v: &T, what: &str) -> Resul
     }
 }
 
+/// "any other Display type": thin wrappers around the primitives that have arms of their own. They are other
+/// types, so to_lean_string() must equal to_string() for them (which for floats is not the text the f32/f64 arms
+/// produce: `1e-7` vs `0.0000001`).
+pub fn check_wrappers(b64: u64, b32: u32) -> Result<(), String> {
+    use std::num::{Saturating, Wrapping};
+    let (d, f) = (f64::from_bits(b64), f32::from_bits(b32));
+    tls_eq(&Wrapping(d), "Wrapping<f64>")?;
+    tls_eq(&Wrapping(f), "Wrapping<f32>")?;
+    tls_eq(&&d, "&f64")?;
+    tls_eq(&&f, "&f32")?;
+    tls_eq(&Box::new(d), "Box<f64>")?;
+    tls_eq(&std::rc::Rc::new(f), "Rc<f32>")?;
+    tls_eq(&Wrapping(b64), "Wrapping<u64>")?;
+    tls_eq(&Wrapping(b64 as i64), "Wrapping<i64>")?;
+    tls_eq(&Wrapping((b64 as u128) << 40 | b32 as u128), "Wrapping<u128>")?;
+    tls_eq(&Wrapping(-((b64 >> 1) as i128) << 30), "Wrapping<i128>")?;
+    tls_eq(&Wrapping(b32 as u8), "Wrapping<u8>")?;
+    tls_eq(&Wrapping(b32 as i16), "Wrapping<i16>")?;
+    tls_eq(&Wrapping(b32 as usize), "Wrapping<usize>")?;
+    tls_eq(&Saturating(b32 as i32), "Saturating<i32>")?;
+    tls_eq(&Saturating(b64 as isize), "Saturating<isize>")?;
+    tls_eq(&&(b64 as i64), "&i64")?;
+    tls_eq(&Box::new(b32), "Box<u32>")?;
+    tls_eq(&&(b32 % 2 == 0), "&bool")?;
+    tls_eq(&Box::new(char::from_u32(b32 % 0xD800).unwrap_or('x')), "Box<char>")?;
+    tls_eq(&std::borrow::Cow::Borrowed("cow"), "Cow<str>")?;
+    Ok(())
+}
+
 pub fn check_f32(bits: u32) -> Result<(), String> {
     guard(|| check_f32_inner(bits))
 }
@@ -816,6 +845,12 @@ pub fn c15(tier: Tier, seed: u64) -> Verdict {
             if let Err(d) = check_f32(b32) {
                 return (st, Some(c15_violation(json!({"kind": "value", "domain": "f32", "bits": format!("{b32:#010x}")}), d)));
             }
+            // small and large magnitudes (where Display and exponent notation differ) half of the time
+            let (w64, w32) = if b32 % 2 == 0 { (b64, b32) } else { ((b64 & !(0x7ffu64 << 52)) | ((if b32 % 4 == 1 { 960u64 } else { 1090 } + (b64 >> 52) % 40) << 52), (b32 & !(0xffu32 << 23)) | ((if b32 % 4 == 1 { 90u32 } else { 185 } + (b32 >> 23) % 30) << 23)) };
+            st.evaluations += 20;
+            if let Err(d) = check_wrappers(w64, w32) {
+                return (st, Some(c15_violation(json!({"kind": "value", "domain": "wrappers", "b64": format!("{w64:#018x}"), "b32": format!("{w32:#010x}")}), d)));
+            }
             if f64_nontrivial(b64) {
                 st.nontrivial.push(digest(&("f64", b64)));
             }
@@ -828,7 +863,7 @@ pub fn c15(tier: Tier, seed: u64) -> Verdict {
         tier,
         seed,
         "exploration",
-        "both bools; all 1,112,064 chars (exhaustive); f32: every exponent x sign x 4096 mantissas (thorough: all 2^32 bit patterns); f64: every exponent x sign x 1000 mantissas plus proptest-random bit patterns; proptest texts through String / &str / Cow / Box<str> / user struct / LeanString in 4 storage states; piecewise Display impls (0-8 pieces, optional error position; also with each of the first three allocator requests refused, for impls that propagate or ignore write errors: never Ok with a partial text); oracle: to_string / write! into a String; floats: parse back to identical bits (NaN to NaN); non-trivial = subnormal/non-finite/boundary floats, 4-byte chars, non-ASCII or > 16-byte texts, multi-piece or failing displays; distinct values",
+        "both bools; all 1,112,064 chars (exhaustive); f32: every exponent x sign x 4096 mantissas (thorough: all 2^32 bit patterns); f64: every exponent x sign x 1000 mantissas plus proptest-random bit patterns; proptest texts through String / &str / Cow / Box<str> / user struct / LeanString in 4 storage states; 20 thin wrappers of primitives (Wrapping, Saturating, &, Box, Rc of floats, integers, bool, char) on random values biased to very small and very large magnitudes; piecewise Display impls (0-8 pieces, optional error position; also with each of the first three allocator requests refused, for impls that propagate or ignore write errors: never Ok with a partial text); oracle: to_string / write! into a String; floats: parse back to identical bits (NaN to NaN); non-trivial = subnormal/non-finite/boundary floats, 4-byte chars, non-ASCII or > 16-byte texts, multi-piece or failing displays; distinct values",
         ASSUME_VAL,
         &merged,
         t0.elapsed().as_secs_f64(),
@@ -1255,6 +1290,13 @@ pub fn replay_value(case: &Value) -> Option<Vec<(usize, String, String)>> {
             "f64" => {
                 let bits = u64::from_str_radix(case.get("bits")?.as_str()?.trim_start_matches("0x"), 16).ok()?;
                 if let Err(d) = check_f64(bits) {
+                    out.push((0, "C15.to_lean_string".to_string(), d));
+                }
+            }
+            "wrappers" => {
+                let b64 = u64::from_str_radix(case.get("b64")?.as_str()?.trim_start_matches("0x"), 16).ok()?;
+                let b32 = u32::from_str_radix(case.get("b32")?.as_str()?.trim_start_matches("0x"), 16).ok()?;
+                if let Err(d) = check_wrappers(b64, b32) {
                     out.push((0, "C15.to_lean_string".to_string(), d));
                 }
             }
